@@ -3,7 +3,7 @@
    pint, pflt, shf: CPython's int(str), float(str), repr(float) -- oracles; what the theorems
    need from them are explicit premises. *)
 From Coq Require Import ZArith List Bool String Ascii.
-From DM Require Import Base.PyVal Base.CsvPy Spec.Nf Spec.Csv Gen.KCheck Model.Store Gen.KCsv Model.Csv Proofs.CsvFacts.
+From DM Require Import Base.PyVal Base.CsvPy Spec.Nf Spec.Csv Gen.KCheck Model.Store Gen.KCsv Model.Csv Proofs.CsvFacts Proofs.C16Guard.
 Import ListNotations.
 Open Scope string_scope.
 
@@ -138,6 +138,31 @@ Theorem C16_write_series_typeerror : forall (d q : ascii) (shf : fl -> string) (
 Proof. exact write_series_typeerror. Qed.
 Print Assumptions C16_write_series_typeerror.
 
+(* DataMatrix.is_2d (kernel k_is_2d, regenerated from the source): a column object with a depth attribute --
+   Some k, for ANY k, 0 included -- anywhere among the columns makes the table not two-dimensional *)
+Theorem C16_is_2d_series : forall (cols : list (string * colobj)) (n : string) (k : Z),
+  In (n, Some k) cols -> k_is_2d cols = false.
+Proof. exact is_2d_series. Qed.
+Print Assumptions C16_is_2d_series.
+
+Theorem C16_is_2d_iff : forall cols : list (string * colobj),
+  k_is_2d cols = true <-> Forall (fun c => snd c = None) cols.
+Proof. exact is_2d_iff. Qed.
+Print Assumptions C16_is_2d_iff.
+
+(* writetxt of a DataMatrix that has a series column (any depth, any position, any other columns) raises TypeError *)
+Theorem C16_write_dm_series_typeerror : forall (shf : fl -> string) (d q : ascii) (cols : list (string * colobj))
+  (t : table) (n : string) (k : Z),
+  In (n, Some k) cols -> writetxt_dm shf d q cols t = Raise TypeError.
+Proof. exact write_dm_series_typeerror. Qed.
+Print Assumptions C16_write_dm_series_typeerror.
+
+(* ... and a DataMatrix of plain columns is written by the writer of the round-trip theorems above *)
+Theorem C16_write_dm_plain : forall (shf : fl -> string) (d q : ascii) (cols : list (string * colobj)) (t : table),
+  Forall (fun c => snd c = None) cols -> writetxt_dm shf d q cols t = writetxt shf d q true t.
+Proof. exact write_dm_plain. Qed.
+Print Assumptions C16_write_dm_plain.
+
 (* non-vacuity *)
 Example C16_ex_write :
   writetxt (fun _ => "2.5"%string) ","%char """"%char true
@@ -158,3 +183,8 @@ Proof. vm_compute. reflexivity. Qed.
 
 Example C16_ex_wf : name_wf "naïve"%string /\ row_wf (fun _ => None) (fun _ => None) 1 [VStr "a,b"%string].
 Proof. repeat split; repeat (constructor; try reflexivity). Qed.
+
+Example C16_ex_depth0 :
+  writetxt_dm (fun _ => "?"%string) ","%char """"%char [("a"%string, None); ("s"%string, Some 0%Z)]
+              (["a"; "s"]%string, [[VInt 1; VStr "[]"]]) = Raise TypeError.
+Proof. vm_compute. reflexivity. Qed.
